@@ -27,8 +27,9 @@ CONTRACTS = {}
 
 
 class Contract:
-    def __init__(self, qualname, verify, props, scenarios, uses, stub, doc):
+    def __init__(self, qualname, verify, props, scenarios, uses, stub, doc, key=None):
         self.qualname = qualname
+        self.key = key or qualname
         self.verify = verify
         self.props = props
         self.scenarios = scenarios or [{}]
@@ -37,9 +38,14 @@ class Contract:
         self.doc = doc
 
 
-def contract(qualname, props, scenarios=None, uses=(), stub=None):
+def contract(qualname, props, scenarios=None, uses=(), stub=None, name=None):
+    """name: distinguishes several contracts on the same function (e.g. a history contract)"""
+    key = qualname if name is None else f"{qualname}@{name}"
+
     def deco(fn):
-        CONTRACTS[qualname] = Contract(qualname, fn, props, scenarios, uses, stub, fn.__doc__ or "")
+        if key in CONTRACTS:
+            raise RuntimeError(f"duplicate contract {key}")
+        CONTRACTS[key] = Contract(qualname, fn, props, scenarios, uses, stub, fn.__doc__ or "", key)
         return fn
 
     return deco
@@ -378,25 +384,25 @@ class VCtx:
     def ensure(self, clause, cond, kind="post"):
         c = as_sym(cond)
         t = c.t if c.is_bool else (c.t != 0)
-        CTX.oblige(f"{self.contract.qualname}#{clause}", t, kind, meta={"scenario": self.scenario})
+        CTX.oblige(f"{self.contract.key}#{clause}", t, kind, meta={"scenario": self.scenario})
 
     def lemma(self, clause, cond):
         """intermediate fact: proved as an obligation of its own, then available
         (quantifier-free) to the obligations that follow"""
         c = as_sym(cond)
-        CTX.oblige(f"{self.contract.qualname}#{clause}", c.t, "lemma", meta={"scenario": self.scenario})
+        CTX.oblige(f"{self.contract.key}#{clause}", c.t, "lemma", meta={"scenario": self.scenario})
         CTX.assume(c.t)
 
     def ensure_eq(self, clause, got, want, kind="post"):
         g, w = as_sym(got), as_sym(want)
         gn, wn = core.to_z3_bool(g.nan), core.to_z3_bool(w.nan)
         goal = z3.And(gn == wn, z3.Implies(z3.Not(wn), g.real() == w.real()))
-        CTX.oblige(f"{self.contract.qualname}#{clause}", goal, kind, meta={"scenario": self.scenario})
+        CTX.oblige(f"{self.contract.key}#{clause}", goal, kind, meta={"scenario": self.scenario})
 
     def ensure_true(self, clause, pybool, detail=""):
         """structural (non-symbolic) postcondition, e.g. dims of the result"""
         CTX.oblige(
-            f"{self.contract.qualname}#{clause}",
+            f"{self.contract.key}#{clause}",
             z3.BoolVal(bool(pybool)),
             "struct",
             meta={"scenario": self.scenario, "detail": detail},
